@@ -88,7 +88,8 @@ def collect_typevars(args: t.Any) -> t.Tuple[t.Union[t.TypeVar, ParamSpec], ...]
 
 
 def type_union(types: t.Iterable[type]) -> type:
-    return functools.reduce(operator.or_, types)
+    # t.Union rather than operator.or_: `int | str` is a types.UnionType, which make_converter doesn't recognize
+    return t.cast(type, t.Union[tuple(types)])  # type: ignore
 
 
 def flatten_union_args(types: t.Iterable[T]) -> t.Iterator[T]:
